@@ -241,6 +241,35 @@ impl AgentRun {
                     let l = (bytes.len() - 20) as u16;
                     bytes[2..4].copy_from_slice(&l.to_be_bytes());
                 }
+                // corrupt 5..8: a MESSAGE-INTEGRITY-SHA256 of an illegal size (1, 8, 12, 18 bytes) that is a *correct prefix* of the
+                // HMAC under the signing key (length field of the HMAC input covering exactly this attribute): must not validate
+                if let (Some("3"), true) = (p[3].strip_prefix("2:"), matches!(p[4], "5" | "6" | "7" | "8")) {
+                    // (the long-term key derivation is not public: one flipped HMAC bit instead)
+                    let n = bytes.len();
+                    bytes[n - 3] ^= 0x40;
+                } else if let (Some(k), true) = (p[3].strip_prefix("2:"), matches!(p[4], "5" | "6" | "7" | "8")) {
+                    let n: usize = match p[4] { "5" => 1, "6" => 8, "7" => 12, _ => 18 };
+                    let mut b = Message::builder(MessageType::from_class_method(cls, meth), tid.into());
+                    b.add_attribute(&sw).unwrap();
+                    bytes = b.build();
+                    let off = bytes.len();
+                    let l = (off + 4 + n - 20) as u16;
+                    bytes[2..4].copy_from_slice(&l.to_be_bytes());
+                    let pw: Vec<u8> = match k {
+                        "1" => "p\u{161}ssword".as_bytes().to_vec(),
+                        "2" => b"password".to_vec(),
+                        _ => format!("key{k}").into_bytes(),
+                    };
+                    let mac = MessageIntegritySha256::compute(&bytes, &pw).unwrap();
+                    bytes.extend_from_slice(&0x001Cu16.to_be_bytes());
+                    bytes.extend_from_slice(&(n as u16).to_be_bytes());
+                    bytes.extend_from_slice(&mac[..n]);
+                    while bytes.len() % 4 != 0 {
+                        bytes.push(0);
+                    }
+                    let total = (bytes.len() - 20) as u16;
+                    bytes[2..4].copy_from_slice(&total.to_be_bytes());
+                }
                 let from = addr_of(p[5]);
                 let r: String = match Message::from_bytes(&bytes) {
                     Err(_) => "noparse".into(),
@@ -521,7 +550,7 @@ pub fn history(rng: &mut Rng, len: usize, tr: &str, timing: bool) -> String {
                         None => format!("1:{}", g.rng.below(4)),
                     },
                 };
-                let corrupt = if g.rng.chance(1, 6) { 1 } else if g.rng.chance(1, 8) { 2 + g.rng.below(3) } else { 0 };
+                let corrupt = if g.rng.chance(1, 6) { 1 } else if g.rng.chance(1, 8) { 2 + g.rng.below(3) } else if g.rng.chance(1, 8) { 5 + g.rng.below(4) } else { 0 };
                 let from = ADDRS[g.rng.below(ADDRS.len() as u64) as usize];
                 g.push(format!("H/{}/{:x}/{}/{}/{}", kind, TIDS[ti], sign, corrupt, from));
             }
